@@ -17,9 +17,28 @@ import manifest_table  # noqa: E402  (fills CHECKS / NOT_YET)
 
 manifest_table.fill(add, NOT_YET)
 
+import sys  # noqa: E402
+sys.path.insert(0, str(Path(__file__).resolve().parent))
+import srcspecs  # noqa: E402
+
+
+def translated(pid):
+    own = sorted({sp.name for sp in srcspecs.SPECS.get(pid, [])})
+    used = sorted({sp.name for u in srcspecs.USES.get(pid, []) for sp in srcspecs.SPECS.get(u, [])} - set(own))
+    return own, used
+
+
 checks = []
 for pid in sorted(CHECKS):
     technique, text, note = CHECKS[pid]
+    own, used = translated(pid)
+    if own or used:
+        technique += (" + source translator (harness/py2lean.py): " + ", ".join(own + [u + " (via another property's file)" for u in used])
+                      + " regenerated from /repo/src on every run (ArimProofs/Generated/Src*.lean) and tied to the model by kernel-checked theorems (ArimProofs/Tie/*.lean); "
+                      "the main theorems are restated on the translated definitions")
+        note = note.replace("the hand-written Lean model, tied to /repo/src only by this check's correspondence run",
+                            "the hand-written Lean model, tied to /repo/src by this check's correspondence run and, for the translated functions, by the translator "
+                            "(its reading of the Python subset and harness/srcspecs.py are trusted) plus tie theorems")
     checks.append({
         "property_id": pid,
         "quick_cmd": f"./check {pid} --tier quick",
@@ -46,7 +65,7 @@ man = {
         "name": "lean4-model+correspondence",
         "path": "lean/ (Lean 4 project: ArimModel = executable model, ArimProofs = theorems, Driver = line protocol) + harness/ (Python correspondence, oracles, evidence)",
         "serves_properties": sorted(CHECKS),
-        "kind_free_text": "machine-checked proof in Lean 4 about an executable model; model tied to /repo/src by a differential correspondence run and an independent property oracle on every check",
+        "kind_free_text": "machine-checked proof in Lean 4 about an executable model; model tied to /repo/src (a) by a translator that regenerates the numeric kernels as Lean definitions on every run, with tie theorems generated = model, and (b) by a differential correspondence run and an independent property oracle on every check",
     }],
     "checks": checks,
     "notes": "See DESIGN.md. known_findings.json lists genuine defects recorded or fixed.",
